@@ -1,16 +1,23 @@
 """C15 — Norton-Thevenin coupling reproduces the directly coupled system (DESIGN.md section 6/C15).
 
-Tie: numeric correspondence between the Lean model (lean/PyYetiVerif/Model/NT.lean, the polymorphic
-formulas executed at dense complex-Float matrices through Drivers/C15.lean) and
-  * frclim.ntfl on 3-d SAM/LAM arrays (stream `ntfl-arrays`: A, F, R, TAM; non-symmetric data, 1..6
-    interface DOF, so the (b x freq x b) layout is observable),
-  * frclim.calcAM with a recovery matrix (stream `calcAM-drm`: default SolveUnc(pre_eig) route on
-    symmetric free-free models, fs=FreqDirect and fs=SolveUnc on non-symmetric data),
-  * frclim.calcAM with a partition vector / cb.cbtf (stream `calcAM-pv`: scattered, unordered b-set,
-    non-zero K_bq that the code ignores, f = 0, empty q-set).
-Oracle (model-free): random free-free source/load pairs; every calcAM route and both boundary forms
-against plain numpy (T Z^-1 T' inverted), ntfl against the physically coupled system assembled and
-solved with numpy.linalg.solve, AM.Acc = I, f = 0 and f -> 0 against the rigid-body mass.
+Lean: Model/NT.lean (block formulas), Model/NTCbtf.lean (cb.cbtf in full: partition by bset, q-set solve, frc/a/d/v,
+`save`, f = 0; calcAM column by column), Model/NTPack.lean (ntfl complete: packaging, loop body, every field; exact
+Gaussian rationals), Props/C15, C15b (cbtf), C15c (ntfl), C15d (routes, low-frequency expansion), C15e (limit W -> 0).
+
+Tie (Drivers/C15.lean runs the same definitions at complex Float and at exact Gaussian rationals):
+  numeric  ntfl-arrays (A, F, R, TAM; two executable models), calcAM-drm (all routes), calcAM-pv (block formula and
+           column by column from cbtfCol), cbtf (frc, a, d, v; `a` as vector / column / matrix; save none / {} / warm
+           from another acceleration and another frequency vector; f = 0; empty q-set; unordered b-set)
+  exact    ntfl-exact (Gaussian dyadic inputs with SAM+LAM a generalised permutation of units x powers of two: every
+           floating-point operation of the real code is exact, outputs compared with the exact rational model, no
+           tolerance; the model's solver is verified exactly on every request), cbtf-exact (f = 0: frc, a, v for any dyadic
+           model, d for diagonal q-q blocks; calcAM(f = 0) = m[bset][:, bset]), layout, flippv, packa (shapes and the two
+           ValueErrors of cbtf), packas (np.atleast_2d(As), the size check and numpy's ValueError in ntfl)
+Oracle (model-free): random free-free source/load pairs; every calcAM route and both boundary forms against plain numpy,
+ntfl against the physically coupled system solved with numpy.linalg.solve, AM.Acc = I, f = 0 and f -> 0 against the
+rigid-body mass, AM(W) against M_rb + W^2 (regular) at every frequency; cb.cbtf against the Craig-Bampton equations in
+model order and warm-vs-cold `save`; ntfl reciprocity / change of boundary coordinates / units / frequency-by-frequency
+independence; the recovery-matrix route against the Schur complement of the full impedance for scattered b-sets.
 """
 import math
 import warnings
@@ -20,19 +27,23 @@ import numpy as np
 from runner import Infra
 
 ID = "C15"
-LEAN_MODULES = ["PyYetiVerif.Props.C15", "PyYetiVerif.Audit.C15"]
+LEAN_MODULES = ["PyYetiVerif.Props.C15", "PyYetiVerif.Props.C15b", "PyYetiVerif.Props.C15c", "PyYetiVerif.Props.C15d",
+                "PyYetiVerif.Props.C15e", "PyYetiVerif.Audit.C15"]
 AUDIT_FILE = "PyYetiVerif/Audit/C15.lean"
 THEOREMS = [
     "PyYetiVerif.C15." + n
     for n in (
         "nt_algebra nt_solves_coupled nt_algebra_matrix nt_equals_coupled am_inverse tam_additive "
         "am_rigid_limit forms_agree forms_agree_cbtf accImp_additive forms_agree_empty_qset "
-        "pv_empty_qset_order_matters layout_injective layout_in_bounds"
+        "pv_empty_qset_order_matters layout_injective layout_in_bounds "
+        # Props/C15b (cb.cbtf in full), C15c (ntfl complete), C15d (routes, low-frequency expansion), C15e (limit)
+        "cbtf_eom cbtf_frc_blocks cbtf_force_eq_am_times_accel cbtf_force_zero_freq cbtf_zero_freq cbtf_outputs_def cbtf_accel_eq calcAM_pv_eq_cbtfAM calcAM_pv_zero_freq cbtf_save_transparent cbtf_save_not_keyed cbtfE_force_eq_am_times_accel cbtfE_vs_general cbtfE_outputs_def flippv_partitions bset_isPartition bset_isPartition_E parallel_sum_comm nt_reciprocity nt_reciprocity_matrix nt_force_operator_symmetric ntfl_congruence ntfl_R_trace_invariant ntfl_scaling ntfl_R_not_invariant ntfl_pointwise slice3F_pack3F ntflColF_spec ntA_col packAs_vector packAs_matrix routes_agree_general routes_agree_solvers routes_difference routes_agree_beyond_cb routes_disagree_noncb drm_zero_freq drm_congruence forms_agree_scaled_selection dyn_stiffness_schur_expansion am_low_frequency_expansion lowfreq_regular_tendsto am_low_frequency_limit cb_transform_blocks cb_form_determinate cbtf_low_frequency_expansion cbtf_zero_freq_is_limit"
     ).split()
 ]
 TRUSTED = [
     "correspondence harness harness/props/c15.py (numeric comparison, |impl-model| <= 1e-9*scale, inputs with a "
-    "condition estimate above 1e5 skipped and counted)",
+    "condition estimate above 1e5 skipped and counted; exact comparison of IEEE doubles with rationals through "
+    "fractions.Fraction)",
     "matrix inversion / linear solves (LAPACK in scipy.linalg.inv/solve, the complex eigen-solution inside "
     "ode.SolveUnc, Gauss-Jordan in the Lean Float instance) satisfy X*A = A*X = 1 up to rounding: the theorems take "
     "the inverse equations as hypotheses, the residuals are measured on every run",
@@ -40,23 +51,35 @@ TRUSTED = [
     "IEEE double rounding is outside the theorems (they are over any ring / any field)",
 ]
 RULE = (
-    "ntfl-arrays: random complex non-symmetric SAM/LAM/As with 1..6 boundary DOF and 1..5 frequencies; calcAM-drm: "
+    "ntfl-arrays: random complex non-symmetric SAM/LAM/As with 1..6 boundary DOF and 1..5 frequencies; ntfl-exact: Gaussian "
+    "dyadic SAM/As with SAM+LAM a (permuted) diagonal of units times powers of two, 1..5 boundary DOF; calcAM-drm: "
     "random free-free symmetric models (proportional, modal, non-proportional damping) through the default route and "
-    "non-symmetric matrices through fs=FreqDirect/SolveUnc, selection and dense recovery matrices; calcAM-pv: random "
-    "matrices with scattered unordered b-set, f=0 and empty q-set included. A case is one (model, frequency vector) "
-    "compared on every output entry; non-trivial = at least 2 boundary DOF (layout observable) or a damping-coupled "
-    "b-q partition; distinct by the generated arrays"
+    "non-symmetric matrices through fs=FreqDirect/SolveUnc; damping also mass-proportional and Rayleigh (rigid-body modes damped); "
+    "recovery matrices: 0/1 selections, dense rows, and one-entry rows that are -1 (mixed signs) or scaled (39.37, 12, "
+    "non-uniform); calcAM-pv and cbtf: random "
+    "matrices (symmetric and not, several unit systems, Craig-Bampton form or with a K_bq the code ignores) with scattered "
+    "unordered b-set, f=0, integer frequency vectors and empty q-set included; cbtf additionally: `a` as vector / one column / "
+    "b x freq matrix, save = None / {} / left by an earlier call with another acceleration and another frequency vector (same "
+    "or other length); cbtf-exact: dyadic models at f = 0. A case is one (model, frequency vector) compared on every output "
+    "entry; non-trivial = at least 2 boundary DOF (layout observable) or a damping-coupled b-q partition; distinct by the "
+    "generated arrays"
 )
 ASSUMPTIONS = [
     "comparisons only where the condition estimates of the dynamic stiffness, the boundary accelerance and SAM+LAM "
     "are below 1e5 (frequencies nearer to an undamped (anti-)resonance are skipped and counted)",
-    "partition-vector form: the model is in Craig-Bampton form (K_bq = 0), as frclim.calcAM documents",
+    "partition-vector form: the model is in Craig-Bampton form (K_bq = 0), as frclim.calcAM documents "
+    "(`routes_difference` says exactly what is lost otherwise, `routes_disagree_noncb` is a concrete instance)",
     "f -> 0 limit equals the rigid-body mass only for a statically determinate interface (as many boundary DOF as "
-    "rigid-body modes); f = 0 itself is compared exactly there",
+    "rigid-body modes; K and B annihilate the rigid-body modes, K_ii invertible); f = 0 itself is compared exactly there",
+    "cb.cbtf: `bset` without repetition and inside the model; the `save` dictionary is only passed between calls on the "
+    "same m, b, k, bset (the entry is not keyed by the model: `cbtf_save_not_keyed`)",
 ]
 PARTIAL = (
-    "the limit W -> 0 of the apparent mass of a flexible free-free model (analysis) is checked by the oracle only; "
-    "proved: the algebraic parts (rigid body: AM = M at every frequency; no b-q coupling: AM = D_bb)"
+    "calcAM at exactly f = 0 through the recovery-matrix route rests on the rigid-body branch inside ode.SolveUnc.fsolve "
+    "(property C02): `drm_zero_freq` proves AM = rigid-body mass FROM the accelerance T phi (phi' M phi)^-1 phi' T' that "
+    "branch returns, the branch itself is compared by the oracle only; the solvers (LAPACK solve/inv, SolveUnc.fsolve) enter "
+    "every theorem through their specification (hypotheses `SolvesQ`, `hsolve`, `IsUnit det`): verified exactly in the exact "
+    "streams, measured in the numeric ones"
 )
 MANIFEST = {
     "level_text": "Proof (Lean 4, standard axioms only) over an arbitrary non-commutative ring and over Mathlib "
@@ -64,17 +87,39 @@ MANIFEST = {
     "solution of source reaction + load equation (`nt_algebra`, `nt_solves_coupled`), eliminating the interior DOF of "
     "source and load from the assembled block system gives exactly those interface accelerations and forces "
     "(`nt_equals_coupled`), the apparent mass of the assembled system is SAM + LAM (`tam_additive`), AM inverts the "
-    "accelerance obtained from unit boundary forces (`am_inverse`), the recovery-matrix and partition-vector forms "
-    "agree when T selects the b-set and the model is in Craig-Bampton form (`forms_agree`, `forms_agree_cbtf`; "
-    "`forms_agree_empty_qset` for an all-boundary model with the b-set in any order), a "
-    "rigid body has AM = M at every frequency (`am_rigid_limit`), and the (b x freq x b) layout is injective and in "
-    "bounds. The same polymorphic definitions are executed at complex Float matrices and compared with frclim.ntfl, "
-    "frclim.calcAM (all routes) and cb.cbtf on every run; a model-free oracle couples random free-free structures "
-    "directly with numpy.linalg.solve.",
-    "level_note": "Trusted: Lean kernel; propext, Classical.choice, Quot.sound; the Python harness; LAPACK/eigen "
-    "solvers as inverses (measured); rounding outside the theorems; W -> 0 limit checked numerically only.",
-    "technique": "Lean 4 proof (ring identities, Schur complements of Mathlib block matrices) + numeric differential "
-    "correspondence of the same definitions at Float + model-free direct-coupling oracle",
+    "accelerance obtained from unit boundary forces (`am_inverse`). cb.cbtf modelled in full over function matrices on "
+    "Fin n with an arbitrary partition (b-set in any order, anywhere): every returned array is the stated transfer "
+    "function of the Craig-Bampton equations in model order (`cbtf_outputs_def`, `cbtf_eom`), frc = AM a with AM the "
+    "Schur complement at every non-zero frequency and m_bb a at f = 0 (`cbtf_force_eq_am_times_accel`, "
+    "`cbtf_force_zero_freq`, `cbtf_zero_freq`), calcAM assembled column by column is that AM (`calcAM_pv_eq_cbtfAM`), a "
+    "warm `save` equals a cold call (`cbtf_save_transparent`; the entry is not keyed by the model: `cbtf_save_not_keyed`), "
+    "the empty-q-set branch IS the general one on frc, a, d, v (`cbtfE_vs_general`, `cbtfE_outputs_def`; model order, F59), `bset ++ flippv` is a permutation of the DOF "
+    "(`flippv_partitions`) and the index functions built from the vector are a partition (`bset_isPartition`). ntfl complete: loop body = the formulas for any solver meeting la.solve's specification "
+    "(`ntflColF_spec`), frequency-by-frequency independence (`ntfl_pointwise`), (b x freq x b) packing round trip "
+    "(`slice3F_pack3F`, `layout_injective`), packaging of As (`packAs_vector`, `packAs_matrix`), exchange of source and load "
+    "(`nt_reciprocity`: R' = 1 - R, A' = As - A, F' = F; `nt_force_operator_symmetric`), change of boundary coordinates "
+    "(`ntfl_congruence`; R itself is not invariant, its trace is), units (`ntfl_scaling`). Routes: the recovery-matrix route "
+    "with any solver is the Schur complement of the FULL impedance for a b-set anywhere in any order, no Craig-Bampton form "
+    "(`routes_agree_general`, `routes_agree_solvers`), the partition-vector route differs by exactly the K_bq/K_qb terms "
+    "(`routes_difference`, `routes_agree_beyond_cb`, counterexample `routes_disagree_noncb`; `forms_agree*` as before); a "
+    "recovery matrix S T transforms the apparent mass by the congruence S^-T AM S^-1, for rows s_i e_i' (reversed DOF, other "
+    "units) entry by entry AM_ij / (s_i s_j) (`drm_congruence`, `forms_agree_scaled_selection`). "
+    "Low frequency: AM(s) = M_rb - s^2 (M_bi + chi M_ii) Z_ii(s)^-1 (M_ib + M_ii psi) as a rational-function identity "
+    "(`am_low_frequency_expansion`), hence AM -> M_rb as W -> 0 over any normed field (`am_low_frequency_limit`, Filter.Tendsto), "
+    "the Craig-Bampton model of such a structure has m_bb = M_rb and k_bb = k_bq = 0 (`cb_form_determinate`) and what cbtf "
+    "returns at f = 0 is the limit of what it returns for f -> 0 (`cbtf_zero_freq_is_limit`). The same definitions are "
+    "executed at complex Float and at exact Gaussian rationals and compared with frclim.ntfl, frclim.calcAM (all routes) and "
+    "cb.cbtf on every run (numeric streams with graded tolerances; exact streams with no tolerance); a model-free oracle "
+    "couples random free-free structures directly with numpy.linalg.solve and checks cbtf against the CB equations.",
+    "level_note": "Trusted: Lean kernel; propext, Classical.choice, Quot.sound; the Python harness; LAPACK / SolveUnc as "
+    "solvers (hypotheses of the theorems; verified exactly in the exact streams, measured in the numeric ones); rounding "
+    "outside the theorems; calcAM(f = 0) through SolveUnc's rigid-body branch is tied, not proved (`drm_zero_freq` starts "
+    "from its accelerance). Not in the property's statement and not modelled: frclim.sefl / stdfs / ctdfs (semi-empirical "
+    "force limits). cb.cbtf with an empty q-set returns a, d, v in model order since the fix recorded as F59 (family "
+    "cbtf-empty-qset-responses-in-bset-order): the model follows the repaired code, the oracle keeps tf.a[bset] == a as a rule.",
+    "technique": "Lean 4 proof (ring identities, Schur complements of Mathlib block matrices, function matrices over Fin n, "
+    "Filter.Tendsto for the low-frequency limit) + numeric and exact differential correspondence of the same definitions + "
+    "model-free direct-coupling oracle",
 }
 
 TOL = 1e-9
@@ -162,11 +207,20 @@ def _gen_struct(rng, r, ni, phib, damping):
         z = rng.uniform(0.3 * zeta, 2 * zeta, n)
         G = M @ ph
         B = G @ np.diag(2 * z * np.sqrt(lam)) @ G.T
+    elif damping == "massprop":
+        # mass-proportional (Rayleigh alpha) damping: the rigid-body modes are DAMPED (B phi != 0); uncoupled after pre_eig
+        B = (2 * zeta * 2 * np.pi * float(rng.uniform(5.0, 40.0))) * M
+    elif damping == "rayleigh":
+        B = (2 * zeta * 2 * np.pi * float(rng.uniform(5.0, 40.0))) * M + 2 * zeta / (2 * np.pi * float(rng.uniform(15.0, 60.0))) * K
     else:
         B0 = _rand_spd(rng, n, 0.2, 3.0) * (2 * zeta * 2 * np.pi * 25)
         B = P.T @ B0 @ P
     B = (B + B.T) / 2
     return M, B, K, phi
+
+
+DAMPINGS = ("prop", "modal", "nonprop", "massprop", "rayleigh")
+RB_DAMPED = ("massprop", "rayleigh")  # damping that acts on the rigid-body modes: no finite apparent mass at f = 0
 
 
 def _cb_form(M, B, K, r):
@@ -191,7 +245,7 @@ def _gen_pair(rng, it):
     determinate = rng.random() < 0.6
     nrb = r if determinate else int(rng.integers(1, r + 1))
     phib = np.eye(r) if nrb == r else rng.standard_normal((r, nrb))
-    damping = ("prop", "modal", "nonprop")[it % 3]
+    damping = DAMPINGS[it % 5]
     S = _gen_struct(rng, r, int(rng.integers(1, 6)), phib, damping)
     L = _gen_struct(rng, r, int(rng.integers(1, 6)), phib, damping)
     nf = int(rng.integers(3, 8))
@@ -326,7 +380,9 @@ def _corr_ntfl(ctx, drv, frclim):
         As = rc(b, nf)
         freq = np.arange(nf) + 1.0
         cases.append((b, nf, SAM, LAM, As, freq))
-        req.append("ntfl %d %d %s %s %s" % (b, nf, _cbits(SAM), _cbits(LAM), _cbits(As)))
+        # two executable models of the same routine: `ntflF` (Model/NTPack, request ntflf) and the block formulas
+        # `ntflArrays` (Model/NT, request ntfl)
+        req.append("%s %d %d %s %s %s" % ("ntfl" if it % 3 == 2 else "ntflf", b, nf, _cbits(SAM), _cbits(LAM), _cbits(As)))
     rep = drv.ask(req)
     worst = 0.0
     for (b, nf, SAM, LAM, As, freq), line in zip(cases, rep):
@@ -362,6 +418,19 @@ def _corr_ntfl(ctx, drv, frclim):
     ctx.extra["ntfl_arrays_worst_relerr"] = worst
 
 
+def _signed_scaled(rng, T, signed):
+    """one entry per row, but not +1: model DOF defined opposite to the interface coordinate (-1; mixed signs), or interface
+    coordinates in other units than the model (39.37 in/m, 12 in/ft, non-uniform) - rows s_i e_i' of a recovery matrix"""
+    r = T.shape[0]
+    if signed:
+        sg = rng.choice([-1.0, 1.0], r)
+        sg[int(rng.integers(0, r))] = -1.0
+        return sg[:, None] * T, "signed"
+    sc = rng.choice([39.37, -39.37, 12.0, 1.0, 0.0254 * 39.37], r)
+    sc[int(rng.integers(0, r))] = 39.37
+    return sc[:, None] * T, "scaled"
+
+
 def _drm_cases(ctx):
     rng = ctx.np_rng(152)
     n = ctx.pick(300, 3000)
@@ -377,7 +446,8 @@ def _drm_cases(ctx):
         if route in ("default", "solveunc-h-pre"):
             nrb = r if rng.random() < 0.5 else int(rng.integers(1, r + 1))
             phib = np.eye(r) if nrb == r else rng.standard_normal((r, nrb))
-            M, B, K, phi_rb = _gen_struct(rng, r, int(rng.integers(1, 6)), phib, ("prop", "modal", "nonprop")[it % 3])
+            dk = DAMPINGS[(it // 6) % 5]
+            M, B, K, phi_rb = _gen_struct(rng, r, int(rng.integers(1, 6)), phib, dk)
             n_ = M.shape[0]
             if route == "solveunc-h-pre" or it % 7 == 3:
                 # one heavy dashpot in a lightly damped structure: the elastic roots mix over-damped (real) and
@@ -402,6 +472,8 @@ def _drm_cases(ctx):
                     p = rng.permutation(n_)
                     T = T[:, p]  # scattered selection
                 tk = "select"
+                if it % 5 >= 3:
+                    T, tk = _signed_scaled(rng, T, it % 5 == 3)
         else:
             n_ = r + int(rng.integers(0, 5))
             M = _rand_spd(rng, n_, 0.5, 4.0) + 0.15 * rng.standard_normal((n_, n_))
@@ -411,6 +483,8 @@ def _drm_cases(ctx):
             dense = bool(rng.random() < 0.4)
             T = rng.standard_normal((r, n_)) if dense else np.eye(r, n_)[:, rng.permutation(n_)]
             tk = "dense" if dense else "select"
+            if not dense and rng.random() < 0.4:
+                T, tk = _signed_scaled(rng, T, bool(rng.random() < 0.5))
         nf = int(rng.integers(2, 6))
         freq = np.sort(rng.uniform(1.0, 150.0, nf))
         if it % 4 == 1:
@@ -553,7 +627,10 @@ def _corr_pv(ctx, drv, frclim, ode):
     req = []
     for c in cases:
         r, n = len(c["bset"]), c["M"].shape[0]
-        req.append("ampv %d %d %d %s %s %s %s %s" % (r, n, len(c["freq"]), _cbits(c["M"]), _cbits(c["B"]),
+        op = "ampvf" if len(req) % 3 == 1 else "ampv"  # column by column from cbtfCol (Model/NTCbtf) / block formula
+        if op == "ampvf":
+            ctx.count("calcAM-pv:column-by-column")
+        req.append("%s %d %d %d %s %s %s %s %s" % (op, r, n, len(c["freq"]), _cbits(c["M"]), _cbits(c["B"]),
                                                      _cbits(c["K"]), " ".join(str(int(i)) for i in c["bset"]),
                                                      _fbits(c["freq"])))
     rep = drv.ask(req)
@@ -603,18 +680,408 @@ def _corr_layout(ctx, drv):
             ctx.disagree("layout", q, w, g)
 
 
+
+# ---------------------------------------------------------------------------------------
+# cb.cbtf in full (Model/NTCbtf.lean): every returned array, every form of `a`, cold / warm `save`
+
+
+def _cbtf_cases(ctx):
+    rng = ctx.np_rng(155)
+    n = ctx.pick(240, 2400)
+    out = []
+    for it in range(n):
+        r = int(rng.integers(1, 6))
+        nq = 0 if it % 8 == 5 else int(rng.integers(1, 6))
+        n_ = r + nq
+        sym = it % 2 == 0
+        eps = 0.0 if sym else 0.12
+        M = _rand_spd(rng, n_, 0.5, 4.0) + eps * rng.standard_normal((n_, n_))
+        w = 2 * np.pi * 30
+        K = (_rand_spd(rng, n_, 0.2, 4.0) + eps * rng.standard_normal((n_, n_))) * w * w
+        B = (_rand_spd(rng, n_, 0.1, 2.0) + eps * rng.standard_normal((n_, n_))) * (0.04 * w)
+        units = (1.0, 1.0, 1e-6, 1e4)[it % 4]
+        M, B, K = M * units, B * units, K * units
+        bset = rng.permutation(n_)[:r]
+        if it % 3 == 0:
+            q = np.setdiff1d(np.arange(n_), bset)
+            K[np.ix_(bset, q)] = 0.0
+            K[np.ix_(q, bset)] = 0.0
+        nf = int(rng.integers(1, 5))
+        freq = np.sort(rng.uniform(1.0, 150.0, nf))
+        if it % 4 == 1:
+            freq[0] = 0.0
+        if it % 6 == 2:
+            freq = np.arange(2, 2 + 9 * nf, 9) + int(rng.integers(0, 20))
+        aform = ("vec", "col", "mat", "mat")[it % 4]
+        if aform == "vec":
+            a_in = rng.standard_normal(r)
+            a = np.repeat(a_in[:, None], nf, axis=1) + 0j
+        elif aform == "col":
+            a_in = rng.standard_normal((r, 1)) + 1j * rng.standard_normal((r, 1))
+            a = np.repeat(a_in, nf, axis=1)
+        else:
+            a_in = rng.standard_normal((r, nf)) + 1j * rng.standard_normal((r, nf))
+            a = a_in.copy()
+            if nf == 1:
+                aform = "col"
+        save = ("none", "dict", "warm", "warm")[(it // 4) % 4]
+        if nq == 0 and save == "warm":
+            save = "dict"
+        out.append({"M": M, "B": B, "K": K, "bset": bset, "freq": freq, "nq": nq, "a_in": a_in, "a": a, "aform": aform,
+                    "save": save, "sym": sym})
+    return out
+
+
+def _run_cbtf(cb, rng, c):
+    """the real routine; `warm`: the dictionary comes from an earlier call on the same model with ANOTHER enforced
+    acceleration and ANOTHER frequency vector (other values, other length)"""
+    with warnings.catch_warnings():
+        warnings.simplefilter("ignore")
+        if c["save"] == "none":
+            return cb.cbtf(c["M"], c["B"], c["K"], c["a_in"], c["freq"], c["bset"])
+        save = {}
+        if c["save"] == "warm":
+            # another frequency vector: half of the time of the SAME length (a cache that only compares lengths)
+            f2 = np.sort(rng.uniform(0.5, 200.0, len(c["freq"]) + (2 if rng.random() < 0.5 else 0)))
+            cb.cbtf(c["M"], c["B"], c["K"], rng.standard_normal(len(c["bset"])), f2, c["bset"], save)
+        return cb.cbtf(c["M"], c["B"], c["K"], c["a_in"], c["freq"], c["bset"], save)
+
+
+def _corr_cbtf(ctx, drv, cb):
+    cases = _cbtf_cases(ctx)
+    rng = ctx.np_rng(156)
+    req = []
+    for c in cases:
+        r, n = len(c["bset"]), c["M"].shape[0]
+        req.append("cbtf %d %d %d %s %s %s %s %s %s" % (r, n, len(c["freq"]), _cbits(c["M"]), _cbits(c["B"]), _cbits(c["K"]),
+                                                        " ".join(str(int(i)) for i in c["bset"]), _cbits(c["a"]),
+                                                        _fbits(np.asarray(c["freq"], dtype=float))))
+    rep = drv.ask(req)
+    worst = 0.0
+    for c, line in zip(cases, rep):
+        if line == "bad-op":
+            raise Infra("driver refused a cbtf request")
+        r, n = len(c["bset"]), c["M"].shape[0]
+        nf = len(c["freq"])
+        rows = r if c["nq"] == 0 else n
+        parts = line.split("|")
+        model = {"frc": _parse_c(parts[0], (r, nf)), "a": _parse_c(parts[1], (rows, nf)),
+                 "d": _parse_c(parts[2], (rows, nf)), "v": _parse_c(parts[3], (rows, nf))}
+        fz = np.asarray(c["freq"], dtype=float)
+        cond = _pv_cond(dict(c, freq=fz))
+        if c["nq"]:
+            cond = np.maximum(cond, _kappa_qq(c["M"], c["B"], c["K"], c["bset"], fz))
+        inp = {"kind": "cbtf", "M": _enc(c["M"]), "B": _enc(c["B"]), "K": _enc(c["K"]), "bset": [int(i) for i in c["bset"]],
+               "freq": np.asarray(c["freq"]).tolist(), "a": _enc(c["a_in"]), "save": c["save"]}  # ints stay ints (dtype)
+        ctx.case(("cbtf", c["M"].tobytes()[:64], tuple(int(i) for i in c["bset"])), nontrivial=True,
+                 branch="cbtf:a=" + c["aform"])
+        ctx.count("cbtf:save=" + c["save"])
+        if (fz == 0).any():
+            ctx.count("cbtf:f=0")
+        if c["nq"] == 0:
+            ctx.count("cbtf:empty-qset")
+            if np.any(np.diff(c["bset"]) < 0):
+                ctx.count("cbtf:empty-qset-unsorted")  # the inputs of finding F59 (a, d, v in model order)
+        if np.any(np.diff(c["bset"]) < 0):
+            ctx.count("cbtf:unsorted")
+        try:
+            tf = _run_cbtf(cb, rng, c)
+        except Exception as e:  # noqa: BLE001
+            ctx.disagree("cbtf", inp, "exception %s: %s" % (type(e).__name__, e), "values")
+            continue
+        done = False
+        for name in ("frc", "a", "d", "v"):
+            got = np.asarray(getattr(tf, name))
+            want = model[name]
+            if got.shape != want.shape:
+                ctx.disagree("cbtf", inp, {"field": name, "shape": list(got.shape)}, list(want.shape))
+                break
+            for j in range(nf):
+                if not cond[j] <= CONDMAX:
+                    ctx.skip("cbtf: condition estimate > 1e5")
+                    continue
+                sc = max(np.abs(want[:, j]).max(), 1e-300)
+                e = np.abs(got[:, j] - want[:, j]).max() / sc
+                if np.abs(want[:, j]).max() == 0.0:
+                    e = np.abs(got[:, j]).max()
+                worst = max(worst, e)
+                if not e <= TOL * max(1.0, cond[j] / 100):
+                    ctx.disagree("cbtf", inp, {"field": name, "freq_index": j, "impl": _enc(got[:, j])},
+                                 {"model": _enc(want[:, j]), "relerr": float(e), "cond": float(cond[j])})
+                    done = True
+                    break
+            if done:
+                break
+        if not np.array_equal(np.asarray(tf.freq, dtype=float), fz) or not np.array_equal(np.asarray(tf.f, dtype=float), fz):
+            ctx.disagree("cbtf", inp, {"field": "freq", "impl": np.asarray(tf.freq).tolist()}, fz.tolist())
+    ctx.extra["cbtf_worst_relerr"] = worst
+
+
+def _corr_packa(ctx, drv, cb):
+    """argument packaging of `a` (exact: shapes and the two ValueErrors of the routine)"""
+    rng = ctx.rng
+    M = np.eye(4)
+    Z = np.zeros((4, 4))
+    req, runs = [], []
+    for _ in range(60):
+        nb = rng.randint(1, 3)
+        lenf = rng.randint(1, 4)
+        if rng.random() < 0.4:
+            ln = rng.choice([nb, nb, lenf, rng.randint(1, 4)])
+            req.append("packa v %d %d %d" % (ln, lenf, nb))
+            a = np.ones(ln)
+        else:
+            rows = rng.choice([nb, nb, rng.randint(1, 4)])
+            cols = rng.choice([1, lenf, lenf, rng.randint(1, 4)])
+            req.append("packa m %d %d %d %d" % (rows, cols, lenf, nb))
+            a = np.ones((rows, cols))
+        runs.append((a, np.arange(lenf) + 1.0, np.arange(nb)))
+    rep = drv.ask(req)
+    for q, (a, freq, bset), g in zip(req, runs, rep):
+        try:
+            tf = cb.cbtf(M, Z, M, a, freq, bset)
+            impl = "ok %d %d" % tf.frc.shape
+        except ValueError as e:
+            impl = "err " + str(e)
+        except Exception as e:  # noqa: BLE001
+            impl = "exception " + type(e).__name__
+        ctx.case(q, nontrivial=False, branch="packa:" + g.split()[0])
+        if impl != g:
+            ctx.disagree("packa", q, impl, g)
+
+
+def _corr_flippv(ctx, drv):
+    from pyyeti import locate
+
+    rng = ctx.rng
+    req, want = [], []
+    for _ in range(80):
+        n = rng.randint(1, 9)
+        r = rng.randint(1, n)
+        bset = rng.sample(range(n), r)
+        req.append("flippv %d %s" % (n, " ".join(map(str, bset))))
+        want.append(" ".join(str(int(i)) for i in locate.flippv(np.array(bset), n)) + ".")
+    rep = drv.ask(req)
+    for q, w, g in zip(req, want, rep):
+        ctx.case(q, nontrivial=False, branch="flippv")
+        if w != g:
+            ctx.disagree("flippv", q, w, g)
+
+
+# ---------------------------------------------------------------------------------------
+# exact streams: Gaussian dyadic rationals, for which every floating-point operation of the real
+# code is exact; the Lean model runs the same definitions in exact rational arithmetic
+
+
+def _gq_tokens(z, den):
+    z = np.asarray(z, dtype=complex).ravel()
+    out = []
+    for x in z:
+        re, im = x.real * den, x.imag * den
+        if re != int(re) or im != int(im):
+            raise Infra("exact stream: input not on the 1/%d grid" % den)
+        out.append("%d %d" % (int(re), int(im)))
+    return " ".join(out)
+
+
+def _parse_gq(s, shape):
+    from fractions import Fraction
+
+    t = s.split()
+    vals = [(Fraction(t[2 * i]), Fraction(t[2 * i + 1])) for i in range(len(t) // 2)]
+    return np.array(vals, dtype=object).reshape(tuple(shape) + (2,))
+
+
+def _exact_eq(got, want):
+    """float complex array == exact rational array, entry by entry, no tolerance"""
+    from fractions import Fraction
+
+    got = np.asarray(got, dtype=complex)
+    if got.shape != want.shape[:-1]:
+        return False
+    for idx in np.ndindex(got.shape):
+        z = got[idx]
+        if not (np.isfinite(z.real) and np.isfinite(z.imag)):
+            return False
+        if Fraction(float(z.real)) != want[idx][0] or Fraction(float(z.imag)) != want[idx][1]:
+            return False
+    return True
+
+
+def _gint(rng, sh, den, lo=-8, hi=9, cplx=True):
+    x = rng.integers(lo, hi, sh).astype(float)
+    if cplx:
+        x = x + 1j * rng.integers(lo, hi, sh)
+    return x / den
+
+
+_UNITS = (1.0, -1.0, 1j, -1j)
+
+
+def _corr_ntfl_exact(ctx, drv, frclim):
+    rng = ctx.np_rng(157)
+    n = ctx.pick(300, 3000)
+    den = 8
+    cases, req = [], []
+    for it in range(n):
+        b = int(rng.integers(1, 6))
+        nf = int(rng.integers(1, 4))
+        SAM = _gint(rng, (b, nf, b), den, cplx=it % 5 != 0)
+        T = np.zeros((b, nf, b), complex)
+        for j in range(nf):
+            perm = rng.permutation(b) if it % 2 else np.arange(b)
+            for i in range(b):
+                T[i, j, perm[i]] = _UNITS[int(rng.integers(0, 4)) if it % 5 else 0] * 2.0 ** int(rng.integers(-2, 4))
+        LAM = T - SAM
+        As = _gint(rng, (b, nf), den, cplx=it % 5 != 0)
+        cases.append((b, nf, SAM, LAM, As, "perm" if it % 2 else "diag"))
+        req.append("ntflx %d %d %d %s %s %s" % (b, nf, den, _gq_tokens(SAM, den), _gq_tokens(LAM, den), _gq_tokens(As, den)))
+    rep = drv.ask(req)
+    for (b, nf, SAM, LAM, As, kind), line in zip(cases, rep):
+        if line == "bad-op":
+            raise Infra("driver refused an ntflx request")
+        parts = line.split("|")
+        if parts[4] != "ok":
+            raise Infra("exact model: (Ms+Ml) Mr = Ms not satisfied by the model's own solver")
+        want = {"A": _parse_gq(parts[0], (b, nf)), "F": _parse_gq(parts[1], (b, nf)), "R": _parse_gq(parts[2], (b, nf)),
+                "TAM": _parse_gq(parts[3], (b, nf, b))}
+        inp = {"kind": "ntfl-arrays", "SAM": _enc(SAM), "LAM": _enc(LAM), "As": _enc(As), "exact": True}
+        ctx.case(("ntflx", b, nf, SAM.tobytes()[:64]), nontrivial=b >= 2, branch="ntfl-exact:" + kind)
+        freq = np.arange(nf) + 1.0
+        try:
+            o = frclim.ntfl(SAM.copy(), LAM.copy(), As.copy(), freq)
+        except Exception as e:  # noqa: BLE001
+            ctx.disagree("ntfl-exact", inp, "exception " + type(e).__name__, "values")
+            continue
+        for name in ("A", "F", "R", "TAM"):
+            if not _exact_eq(getattr(o, name), want[name]):
+                ctx.disagree("ntfl-exact", inp, {"field": name, "impl": _enc(np.asarray(getattr(o, name)))},
+                             {"model": [[str(x) for x in v] for v in want[name].reshape(-1, 2)[:8]]})
+                break
+        # the pass-through fields
+        if not (np.array_equal(o.SAM, SAM) and np.array_equal(o.LAM, LAM) and np.array_equal(np.asarray(o.freq), freq)):
+            ctx.disagree("ntfl-exact", inp, {"field": "SAM/LAM/freq pass-through"}, "inputs returned unchanged")
+
+
+def _corr_cbtf_exact(ctx, drv, cb, frclim):
+    """f = 0: frc, a, v are exact for any dyadic model; d is exact when the q-q blocks are diagonal with power-of-two
+    stiffness (SolveUnc then divides, equation by equation); also calcAM (partition vector) at f = 0"""
+    rng = ctx.np_rng(158)
+    n = ctx.pick(150, 1500)
+    den = 4
+    cases, req = [], []
+    for it in range(n):
+        r = int(rng.integers(1, 4))
+        nq = 0 if it % 7 == 3 else int(rng.integers(1, 4))
+        n_ = r + nq
+        M = _gint(rng, (n_, n_), den, cplx=False)
+        M = M + M.T
+        B = _gint(rng, (n_, n_), den, cplx=False)
+        K = _gint(rng, (n_, n_), den, cplx=False)
+        bset = rng.permutation(n_)[:r]
+        q = np.setdiff1d(np.arange(n_), bset)
+        diag = it % 2 == 0
+        if nq:
+            if diag:
+                for X in (M, B, K):
+                    X[np.ix_(q, q)] = 0
+                M[q, q] = 2.0 ** rng.integers(-2, 3, nq)
+                K[q, q] = 2.0 ** rng.integers(-2, 3, nq)
+                B[q, q] = _gint(rng, nq, den, cplx=False)
+            else:
+                K[np.ix_(q, q)] += np.eye(nq) * 16
+                M[np.ix_(q, q)] += np.eye(nq) * 16
+        a = _gint(rng, r, den, cplx=False)
+        cases.append({"M": M, "B": B, "K": K, "bset": bset, "a": a, "nq": nq, "diag": diag})
+        req.append("cbtfx %d %d %d %s %s %s %s %s" % (r, n_, den, _gq_tokens(M, den), _gq_tokens(B, den), _gq_tokens(K, den),
+                                                      " ".join(str(int(i)) for i in bset), _gq_tokens(a, den)))
+    rep = drv.ask(req)
+    for c, line in zip(cases, rep):
+        if line == "bad-op":
+            raise Infra("driver refused a cbtfx request")
+        r, n_ = len(c["bset"]), c["M"].shape[0]
+        rows = r if c["nq"] == 0 else n_
+        parts = line.split("|")
+        want = {"frc": _parse_gq(parts[0], (r, 1)), "a": _parse_gq(parts[1], (rows, 1)), "d": _parse_gq(parts[2], (rows, 1)),
+                "v": _parse_gq(parts[3], (rows, 1))}
+        inp = {"kind": "cbtf", "M": _enc(c["M"]), "B": _enc(c["B"]), "K": _enc(c["K"]), "bset": [int(i) for i in c["bset"]],
+               "freq": [0.0], "a": _enc(c["a"]), "save": "none", "exact": True}
+        ctx.case(("cbtfx", c["M"].tobytes()[:64], tuple(int(i) for i in c["bset"])), nontrivial=True,
+                 branch="cbtf-exact:" + ("empty-qset" if c["nq"] == 0 else "diag-qq" if c["diag"] else "full-qq"))
+        try:
+            with warnings.catch_warnings():
+                warnings.simplefilter("ignore")
+                tf = cb.cbtf(c["M"], c["B"], c["K"], c["a"], [0.0], c["bset"])
+                am = frclim.calcAM([c["M"], c["B"], c["K"], c["bset"]], [0.0])
+        except Exception as e:  # noqa: BLE001
+            ctx.disagree("cbtf-exact", inp, "exception %s: %s" % (type(e).__name__, e), "values")
+            continue
+        fields = ("frc", "a", "v", "d") if (c["diag"] or c["nq"] == 0) else ("frc", "a", "v")
+        for name in fields:
+            if not _exact_eq(getattr(tf, name), want[name]):
+                ctx.disagree("cbtf-exact", inp, {"field": name, "impl": _enc(np.asarray(getattr(tf, name)))},
+                             {"model": [[str(x) for x in v] for v in want[name].reshape(-1, 2)[:8]]})
+                break
+        # calcAM at f = 0 is m[bset][:, bset] exactly (`calcAM_pv_zero_freq`)
+        if not np.array_equal(np.asarray(am)[:, 0, :], c["M"][np.ix_(c["bset"], c["bset"])]):
+            ctx.disagree("cbtf-exact", dict(inp, kind="calcAM-pv", freq=[0.0]), {"AM(f=0)": _enc(np.asarray(am)[:, 0, :])},
+                         "m[bset][:, bset]")
+
+
+def _corr_packas(ctx, drv, frclim):
+    """shapes through ntfl: np.atleast_2d(As), the routine's size check, numpy's own ValueError (exact)"""
+    rng = ctx.rng
+    req, runs = [], []
+    for _ in range(60):
+        r = rng.randint(1, 3)
+        nf = rng.randint(1, 4)
+        lenf = rng.choice([nf, nf, nf, rng.randint(1, 4)])
+        cl = rng.choice([nf, nf, nf, rng.randint(1, 4)])
+        form = rng.choice(["vec", "mat", "mat", "mat"])
+        if form == "vec":
+            dims = [rng.choice([nf, nf, r])]
+        else:
+            dims = [rng.choice([r, r, r, rng.randint(1, 3)]), rng.choice([nf, nf, nf, rng.randint(1, 4)])]
+        req.append("packas %d %d %d %d %d %d %d %d %s" % (lenf, r, nf, r, r, cl, r, len(dims), " ".join(map(str, dims))))
+        runs.append((np.ones((r, nf, r)) * 2 + 0j, np.ones((r, cl, r)) + 0j, np.ones(dims), np.arange(lenf) + 1.0))
+    rep = drv.ask(req)
+    for q, (SAM, LAM, As, freq), g in zip(req, runs, rep):
+        try:
+            SAMd = SAM + np.eye(SAM.shape[0])[:, None, :]
+            o = frclim.ntfl(SAMd, LAM, As, freq)
+            impl = "ok %s | %s" % (" ".join(map(str, o.A.shape)), " ".join(map(str, o.TAM.shape)))
+        except ValueError:
+            impl = "err ValueError"
+        except Exception as e:  # noqa: BLE001
+            impl = "exception " + type(e).__name__
+        ctx.case(q, nontrivial=False, branch="packas:" + g.split()[0])
+        if impl != g:
+            ctx.disagree("packas", q, impl, g)
+
+
 def correspondence(ctx):
-    frclim, ode, _ = _pyyeti()
+    frclim, ode, cb = _pyyeti()
     drv = ctx.driver("C15")
     _corr_layout(ctx, drv)
+    _corr_flippv(ctx, drv)
+    _corr_packa(ctx, drv, cb)
+    _corr_packas(ctx, drv, frclim)
+    _corr_ntfl_exact(ctx, drv, frclim)
+    _corr_cbtf_exact(ctx, drv, cb, frclim)
     _corr_ntfl(ctx, drv, frclim)
+    _corr_cbtf(ctx, drv, cb)
     _corr_drm(ctx, drv, frclim, ode)
     _corr_pv(ctx, drv, frclim, ode)
     ctx.require_branches(
         ["ntfl-arrays:b=%d" % b for b in range(1, 7)]
-        + ["calcAM-drm:default:select", "calcAM-drm:default:dense", "calcAM-drm:freqdirect:select",
+        + ["calcAM-drm:default:select", "calcAM-drm:default:dense", "calcAM-drm:default:signed", "calcAM-drm:default:scaled",
+           "calcAM-drm:freqdirect:select",
            "calcAM-drm:freqdirect:dense", "calcAM-drm:solveunc:select", "calcAM-pv:sym", "calcAM-pv:nonsym",
-           "calcAM-pv:empty-qset", "calcAM-pv:empty-qset-unsorted", "calcAM-pv:f=0", "layout"]
+           "calcAM-pv:empty-qset", "calcAM-pv:empty-qset-unsorted", "calcAM-pv:f=0", "calcAM-pv:column-by-column", "layout",
+           "flippv", "packa:ok", "packa:err", "packas:ok", "packas:err", "ntfl-exact:diag", "ntfl-exact:perm",
+           "cbtf-exact:empty-qset", "cbtf-exact:diag-qq", "cbtf-exact:full-qq",
+           "cbtf:a=vec", "cbtf:a=col", "cbtf:a=mat", "cbtf:save=none", "cbtf:save=dict", "cbtf:save=warm", "cbtf:f=0",
+           "cbtf:empty-qset", "cbtf:empty-qset-unsorted", "cbtf:unsorted"]
     )
 
 
@@ -733,12 +1200,39 @@ def _oracle_pair(p, frclim, ode, cb):
             return X
 
         C = [asm(S[i], L[i]) for i in range(3)]
-        TAMc = frclim.calcAM([*C, np.eye(r, n)], freq)
+        if p["damping"] in RB_DAMPED:
+            # source and load carry DIFFERENT mass-proportional factors: the assembled damping is not proportional, the complex
+            # eigenproblem behind SolveUnc has (nearly defective) zero roots for the damped rigid-body modes and loses digits
+            # (measured 4e-9; an accuracy matter of the eigen-solver, property C02) - the assembled system goes through the
+            # direct solver; the default route is exercised on source and load themselves above
+            TAMc = frclim.calcAM([*C, np.eye(r, n)], freq, fs=ode.FreqDirect(*C))
+        else:
+            TAMc = frclim.calcAM([*C, np.eye(r, n)], freq)
         skipped += _chk(fails, "tam-vs-coupled-apparent-mass-" + tag,
                         "calcAM of the assembled system != SAM + LAM", inp, TAMc, SAMn + LAMn, call, 1)
 
         # --- f = 0 and f -> 0: rigid-body mass (statically determinate interface) ---------
-        if p["nrb"] == r:
+        if p["nrb"] == r and p["damping"] not in RB_DAMPED:
+            # `am_low_frequency_expansion`, restated with numpy at EVERY frequency of the pair:
+            # AM(W) = M_rb + W^2 (M_bi + psi' M_ii) (K_ii + iW B_ii - W^2 M_ii)^-1 (M_ib + M_ii psi)
+            for nm, X, phi, cx in (("source", S, p["phis"], cs), ("load", L, p["phil"], cl)):
+                if X[0].shape[0] == r:
+                    continue
+                psi = phi[r:]
+                Mx, Bx, Kx = X
+                mrb = phi.T @ Mx @ phi
+                mcbi = Mx[:r, r:] + psi.T @ Mx[r:, r:]
+                mcib = Mx[r:, :r] + Mx[r:, r:] @ psi
+                ref = np.empty((r, len(freq), r), complex)
+                cii = np.empty(len(freq))
+                for j, f in enumerate(freq):
+                    O = 2 * np.pi * f
+                    Zii = _Z(Mx[r:, r:], Bx[r:, r:], Kx[r:, r:], O)
+                    ref[:, j, :] = mrb + O ** 2 * (mcbi @ np.linalg.solve(Zii, mcib))
+                    cii[j] = np.linalg.cond(Zii)
+                skipped += _chk(fails, "am-low-frequency-expansion-" + tag,
+                                "calcAM != M_rb + W^2 (M_bi + psi' M_ii) Z_ii^-1 (M_ib + M_ii psi) (%s)" % nm,
+                                dict(inp, route=nm), routes[nm + "-drm-default"][0], ref, np.maximum(cx, cii), 1)
             for nm, X, phi in (("source", S, p["phis"]), ("load", L, p["phil"])):
                 mrb = phi.T @ X[0] @ phi  # phi[b] = I
                 ref = mrb[:, None, :] + 0j
@@ -766,14 +1260,248 @@ def _oracle_pair(p, frclim, ode, cb):
     return fails, skipped
 
 
-def _oracle_general_T(p, rng, frclim):
-    """dense recovery matrices on both sides: the interface is T_s x_s = T_l x_l"""
+
+def _cbtf_check(inp, cb):
+    """cb.cbtf judged on its public API with plain numpy: the returned arrays satisfy the Craig-Bampton equations in
+    model order (k without its b-q / q-b blocks), `a` on the b-set is the enforced one, v = iW d, a = -W^2 d; a call with a
+    warm `save` (left by a call with another acceleration and another frequency vector) returns the same"""
+    M, B, K = (_dec(inp[k]) for k in ("M", "B", "K"))
+    bset = np.array(inp["bset"], dtype=int)
+    freq = np.array(inp["freq"])  # an integer frequency vector stays one
+    a_in = _dec(inp["a"])
+    n_ = M.shape[0]
+    r = len(bset)
+    nf = len(freq)
+    q = np.setdiff1d(np.arange(n_), bset)
+    fam = "multi-dof" if r > 1 else "single-dof"
+    fails = []
+    with warnings.catch_warnings():
+        warnings.simplefilter("ignore")
+        tf = cb.cbtf(M, B, K, a_in, freq, bset)
+        save = {}
+        cb.cbtf(M, B, K, np.arange(1.0, r + 1), np.linspace(0.7, 91.0, nf), bset, save)  # same length, other values
+        tw = cb.cbtf(M, B, K, a_in, freq, bset, save)
+    a = np.asarray(a_in, dtype=complex)
+    if a.ndim == 1:
+        a = a[:, None]
+    if a.shape[1] == 1:
+        a = np.repeat(a, nf, axis=1)
+    acc, dis, vel = np.asarray(tf.a), np.asarray(tf.d), np.asarray(tf.v)  # MODEL order, with or without a q-set
+    if acc.shape == (n_, nf) and q.size == 0 and not np.array_equal(acc[bset], a):
+        # regression rule of finding F59 (repaired in /repo ed802cc): tf.a[bset] == a also when every DOF is a b-set DOF
+        return {"family": "cbtf-empty-qset-responses-in-bset-order",
+                "what": "cb.cbtf with an empty q-set: the returned a (d, v) are not in model order, tf.a[bset] != a",
+                "input": inp, "observed": {"tf.a[bset]": _enc(acc[bset])}, "required": {"a": _enc(a)}}
+    if acc.shape != (n_, nf) or np.asarray(tf.frc).shape != (r, nf):
+        return {"family": "cbtf-output-shape-" + fam, "what": "shapes of the returned arrays", "input": inp,
+                "observed": [list(np.shape(tf.frc)), list(np.shape(tf.a))], "required": [[r, nf], [n_, nf]]}
+    Kcb = K.astype(complex).copy()
+    Kcb[np.ix_(bset, q)] = 0
+    Kcb[np.ix_(q, bset)] = 0
+    cond = np.ones(nf)
+    if q.size:
+        cond = np.maximum(_pv_cond({"M": M, "bset": bset, "freq": freq, "B": B, "K": K}), _kappa_qq(M, B, K, bset, freq))
+    O = 2 * np.pi * freq
+    rhs = np.zeros((n_, nf), complex)
+    rhs[bset] = tf.frc
+    res = M @ acc + B @ vel + Kcb @ dis - rhs
+    for j in range(nf):
+        if not cond[j] <= CONDMAX:
+            continue
+        lim = TOL * max(1.0, cond[j] / 100)
+        sc = max(np.abs(M @ acc[:, j]).max(), np.abs(B @ vel[:, j]).max(), np.abs(Kcb @ dis[:, j]).max(), 1e-300)
+        checks = [
+            ("cbtf-outputs-vs-cb-equations-" + fam, "m a + b v + k_cb d != (frc on the b-set rows, 0 on the q-set rows)",
+             np.abs(res[:, j]).max() / sc),
+            ("cbtf-enforced-acceleration-" + fam, "returned b-set acceleration is not the enforced one",
+             np.abs(acc[bset, j] - a[:, j]).max() / max(np.abs(a[:, j]).max(), 1e-300)),
+            ("cbtf-velocity-" + fam, "v != i W d", np.abs(vel[:, j] - 1j * O[j] * dis[:, j]).max()
+             / max(np.abs(vel[:, j]).max(), np.abs(O[j] * dis[:, j]).max(), 1e-300)),
+        ]
+        if O[j] != 0:
+            checks.append(("cbtf-acceleration-" + fam, "a != -W^2 d", np.abs(acc[:, j] + O[j] ** 2 * dis[:, j]).max()
+                           / max(np.abs(acc[:, j]).max(), 1e-300)))
+        else:
+            checks.append(("cbtf-zero-frequency-" + fam, "at f = 0: q-set acceleration, velocity, b-set displacement must vanish",
+                           max(np.abs(acc[q, j]).max() if q.size else 0.0, np.abs(vel[:, j]).max(), np.abs(dis[bset, j]).max())))
+            checks.append(("cbtf-zero-frequency-force-" + fam, "at f = 0: frc != m[bset][:, bset] a",
+                           np.abs(tf.frc[:, j] - M[np.ix_(bset, bset)] @ a[:, j]).max()
+                           / max(np.abs(tf.frc[:, j]).max(), 1e-300)))
+        for family, what, e in checks:
+            _STATS[family.rsplit("-", 2)[0]] = max(_STATS.get(family.rsplit("-", 2)[0], 0.0), float(e / lim))
+            if not e <= lim:
+                fails.append({"family": family, "what": what, "input": dict(inp, freq_index=j),
+                              "observed": {"relerr": float(e)}, "required": {"tol": float(lim), "cond": float(cond[j])}})
+    for name in ("frc", "a", "d", "v"):
+        x, y = np.asarray(getattr(tf, name)), np.asarray(getattr(tw, name))
+        if x.shape != y.shape or not np.allclose(x, y, rtol=1e-12, atol=1e-300 + 1e-12 * np.abs(x).max()):
+            fails.append({"family": "cbtf-warm-save-differs-" + fam,
+                          "what": "cbtf with the `save` dictionary left by an earlier call on the same model (other `a`, other "
+                                  "frequency vector) returns another `%s` than a cold call" % name,
+                          "input": inp, "observed": _enc(y), "required": _enc(x)})
+            break
+    return fails[0] if fails else None
+
+
+def _oracle_cbtf(ctx, rng, cb):
+    for it in range(ctx.pick(60, 600)):
+        r = int(rng.integers(1, 5))
+        nq = 0 if it % 7 == 2 else int(rng.integers(1, 5))
+        n_ = r + nq
+        eps = 0.0 if it % 2 else 0.1
+        M = _rand_spd(rng, n_, 0.5, 4.0) + eps * rng.standard_normal((n_, n_))
+        w = 2 * np.pi * 30
+        K = (_rand_spd(rng, n_, 0.2, 4.0) + eps * rng.standard_normal((n_, n_))) * w * w
+        B = (_rand_spd(rng, n_, 0.1, 2.0) + eps * rng.standard_normal((n_, n_))) * (0.04 * w)
+        bset = rng.permutation(n_)[:r]
+        nf = int(rng.integers(1, 4))
+        freq = np.sort(rng.uniform(1.0, 120.0, nf))
+        if it % 3 == 1:
+            freq[0] = 0.0
+        a = rng.standard_normal(r) if it % 2 else rng.standard_normal((r, nf)) + 1j * rng.standard_normal((r, nf))
+        inp = {"kind": "cbtf", "M": _enc(M), "B": _enc(B), "K": _enc(K), "bset": [int(i) for i in bset], "freq": freq.tolist(),
+               "a": _enc(a), "save": "none"}
+        f = _replay_input(inp, None, None)
+        ctx.count("oracle:cbtf")
+        if f:
+            ctx.failures.append(f)
+
+
+def _relations_check(inp, frclim):
+    """the relation checks on recorded arrays; returns a list of failure dicts"""
+    SAM, LAM, As, P, Q = (_dec(inp[k]) for k in ("SAM", "LAM", "As", "P", "Q"))
+    SAM2, LAM2, As2 = (_dec(inp[k]) for k in ("SAM2", "LAM2", "As2"))
+    j0 = inp["j0"]
+    b, nf, _ = SAM.shape
+    freq = np.arange(nf) + 1.0
+    fam = "multi-dof" if b > 1 else "single-dof"
+    cnd = max(np.linalg.cond(SAM[:, j] + LAM[:, j]) for j in range(nf))
+    lim = 1e-10 * cnd
+    out = []
+    with warnings.catch_warnings():
+        warnings.simplefilter("ignore")
+        o = frclim.ntfl(SAM.copy(), LAM.copy(), As.copy(), freq)
+        sw = frclim.ntfl(LAM.copy(), SAM.copy(), As.copy(), freq)
+        cq = np.linalg.cond(Q) * np.linalg.cond(P)
+        SAMc = np.einsum("ia,ajb,bk->ijk", P, SAM, Q)
+        LAMc = np.einsum("ia,ajb,bk->ijk", P, LAM, Q)
+        oc = frclim.ntfl(SAMc, LAMc, np.linalg.solve(Q, As), freq)
+        c_, d_ = 1000.0, 9.80665
+        osc = frclim.ntfl(c_ * SAM, c_ * LAM, d_ * As, freq)
+        o2 = frclim.ntfl(SAM2.copy(), LAM2.copy(), As2.copy(), freq)
+
+    def rel(x, y):
+        return float(np.abs(x - y).max() / max(np.abs(y).max(), 1e-300))
+
+    checks = [
+        ("ntfl-reciprocity-R-" + fam, "R(source, load) + R(load, source) != 1", rel(o.R + sw.R, np.ones_like(o.R)), lim),
+        ("ntfl-reciprocity-A-" + fam, "A(source, load) + A(load, source) != As", rel(o.A + sw.A, As), lim),
+        ("ntfl-reciprocity-F-" + fam, "F changes when source and load are exchanged", rel(sw.F, o.F), lim),
+        ("ntfl-congruence-A-" + fam, "A in new boundary coordinates != Q^-1 A", rel(oc.A, np.linalg.solve(Q, o.A)), lim * cq),
+        ("ntfl-congruence-F-" + fam, "F in new boundary coordinates != P F", rel(oc.F, P @ o.F), lim * cq),
+        ("ntfl-congruence-TAM-" + fam, "TAM in new boundary coordinates != P TAM Q",
+         rel(oc.TAM, np.einsum("ia,ajb,bk->ijk", P, o.TAM, Q)), lim * cq),
+        ("ntfl-scaling-R-" + fam, "R depends on the mass / acceleration units", rel(osc.R, o.R), lim),
+        ("ntfl-scaling-A-" + fam, "A does not scale with the acceleration unit", rel(osc.A, d_ * o.A), lim),
+        ("ntfl-scaling-F-" + fam, "F does not scale with mass unit x acceleration unit", rel(osc.F, c_ * d_ * o.F), lim),
+    ]
+    for family, what, e, l_ in checks:
+        key = family.rsplit("-", 2)[0]
+        _STATS[key] = max(_STATS.get(key, 0.0), e / l_)
+        if not e <= l_:
+            out.append({"family": family, "what": what, "input": inp, "observed": {"relerr": e}, "required": {"tol": l_}})
+    same = all(np.array_equal(np.asarray(getattr(o2, nme))[:, j0], np.asarray(getattr(o, nme))[:, j0])
+               for nme in ("A", "F", "R", "TAM"))
+    if not same:
+        out.append({"family": "ntfl-pointwise-" + fam,
+                    "what": "column j of the outputs changes when OTHER frequency columns of the inputs change",
+                    "input": inp, "observed": "different bits", "required": "identical"})
+    return out
+
+
+def _oracle_ntfl_relations(ctx, rng, frclim):
+    """relations of ntfl on user-supplied apparent-mass arrays, on the real code only: exchange of source and load
+    (`nt_reciprocity`), change of boundary coordinates (`ntfl_congruence`), units (`ntfl_scaling`), frequency-by-frequency
+    independence (`ntfl_pointwise`, bit for bit)"""
+    for it in range(ctx.pick(60, 600)):
+        b = int(rng.integers(1, 6))
+        nf = int(rng.integers(2, 5))
+
+        def rc(*sh):
+            return rng.standard_normal(sh) + 1j * rng.standard_normal(sh)
+
+        SAM = rc(b, nf, b) + (2.0 * b) * np.eye(b)[:, None, :]
+        LAM = rc(b, nf, b) + (1.0 * b) * np.eye(b)[:, None, :]
+        As = rc(b, nf)
+        if max(np.linalg.cond(SAM[:, j] + LAM[:, j]) for j in range(nf)) > 1e4:
+            ctx.skip("oracle ntfl relations: cond(SAM+LAM) > 1e4")
+            continue
+        Q = np.eye(b) + 0.3 * rng.standard_normal((b, b))
+        P = Q.T if it % 2 else np.eye(b) + 0.3 * rng.standard_normal((b, b))
+        # pointwise: every OTHER frequency column replaced by something else
+        j0 = int(rng.integers(0, nf))
+        SAM2, LAM2, As2 = rc(b, nf, b) + 3 * b * np.eye(b)[:, None, :], rc(b, nf, b) + 2 * b * np.eye(b)[:, None, :], rc(b, nf)
+        SAM2[:, j0, :], LAM2[:, j0, :], As2[:, j0] = SAM[:, j0, :], LAM[:, j0, :], As[:, j0]
+        inp = {"kind": "ntfl-relations", "SAM": _enc(SAM), "LAM": _enc(LAM), "As": _enc(As), "P": _enc(P), "Q": _enc(Q),
+               "SAM2": _enc(SAM2), "LAM2": _enc(LAM2), "As2": _enc(As2), "j0": j0}
+        ctx.failures.extend(_relations_check(inp, frclim))
+        ctx.count("oracle:ntfl-relations")
+
+
+def _oracle_routes(ctx, rng, frclim, ode):
+    """`routes_agree_general` on the real code: recovery-matrix route with the selection matrix of a scattered, unordered
+    b-set == Schur complement of the FULL impedance (no Craig-Bampton form), through FreqDirect and SolveUnc"""
+    for it in range(ctx.pick(40, 400)):
+        r = int(rng.integers(1, 5))
+        nq = int(rng.integers(1, 5))
+        n_ = r + nq
+        eps = 0.0 if it % 2 else 0.1
+        M = _rand_spd(rng, n_, 0.5, 4.0) + eps * rng.standard_normal((n_, n_))
+        w = 2 * np.pi * 30
+        K = (_rand_spd(rng, n_, 0.2, 4.0) + eps * rng.standard_normal((n_, n_))) * w * w
+        B = (_rand_spd(rng, n_, 0.1, 2.0) + eps * rng.standard_normal((n_, n_))) * (0.04 * w)
+        bset = rng.permutation(n_)[:r]
+        q = np.setdiff1d(np.arange(n_), bset)
+        T = np.zeros((r, n_))
+        T[np.arange(r), bset] = 1.0
+        freq = np.sort(rng.uniform(1.0, 120.0, 3))
+        ref = np.empty((r, 3, r), complex)
+        cond = np.empty(3)
+        for j, f in enumerate(freq):
+            O = 2 * np.pi * f
+            D = M + B / (1j * O) - K / O ** 2
+            Dqq = D[np.ix_(q, q)]
+            ref[:, j, :] = D[np.ix_(bset, bset)] - D[np.ix_(bset, q)] @ np.linalg.solve(Dqq, D[np.ix_(q, bset)])
+            cond[j] = max(np.linalg.cond(Dqq), np.linalg.cond(D), np.linalg.cond(ref[:, j, :]))
+        fam = "multi-dof" if r > 1 else "single-dof"
+        route = "freqdirect" if it % 2 == 0 else "solveunc"
+        inp = {"kind": "calcAM-drm", "route": route, "M": _enc(M), "B": _enc(B), "K": _enc(K), "T": _enc(T),
+               "freq": freq.tolist(), "bset": [int(i) for i in bset]}
+        fails = []
+        am = _calc_am(frclim, ode, {"M": M, "B": B, "K": K, "T": T, "freq": freq, "route": route})
+        _chk(fails, "calcAM-drm-%s-vs-schur-complement-%s" % (route, fam),
+             "calcAM (recovery matrix selecting a scattered b-set) != Schur complement of the full impedance onto the b-set",
+             inp, am, ref, cond, 1)
+        ctx.count("oracle:routes")
+        for t in fails:
+            ctx.failures.append(_fdict(t))
+
+
+def _oracle_general_T(p, rng, frclim, mode="dense", Ts=None, Tl=None):
+    """recovery matrices on both sides that are not 0/1 selections: the interface is T_s x_s = T_l x_l.
+    dense: perturbed selections; signed: rows -e_i' / +e_i' (a model DOF defined opposite to the interface coordinate);
+    scaled: rows s_i e_i' (interface coordinates in other units than the model, non-uniform)"""
     fails = []
     r, freq, Fs = p["r"], p["freq"], p["Fs"]
     S, L = p["S"], p["L"]
     ns, nl = S[0].shape[0], L[0].shape[0]
-    Ts = np.eye(r, ns) + 0.3 * rng.standard_normal((r, ns))
-    Tl = np.eye(r, nl) + 0.3 * rng.standard_normal((r, nl))
+    if Ts is None:
+        if mode == "dense":
+            Ts = np.eye(r, ns) + 0.3 * rng.standard_normal((r, ns))
+            Tl = np.eye(r, nl) + 0.3 * rng.standard_normal((r, nl))
+        else:
+            Ts, _ = _signed_scaled(rng, np.eye(r, ns), mode == "signed")
+            Tl, _ = _signed_scaled(rng, np.eye(r, nl), mode == "signed")
     with warnings.catch_warnings():
         warnings.simplefilter("ignore")
         A, F, As, cz = _coupled_numpy(S, L, Ts, Tl, Fs, freq)
@@ -783,13 +1511,21 @@ def _oracle_general_T(p, rng, frclim):
         call = np.maximum.reduce([cz, cs, cl, ct])
         nt = frclim.ntfl([*S, Ts], [*L, Tl], As, freq)
     tag = ("multi-dof-" if r > 1 else "single-dof-") + p["damping"]
-    inp = {"kind": "pair-dense-T", "r": r, "damping": p["damping"], "Ms": _enc(S[0]), "Bs": _enc(S[1]), "Ks": _enc(S[2]),
-           "Ml": _enc(L[0]), "Bl": _enc(L[1]), "Kl": _enc(L[2]), "freq": freq.tolist(), "Fs": _enc(Fs),
+    inp = {"kind": "pair-dense-T", "mode": mode, "r": r, "damping": p["damping"], "Ms": _enc(S[0]), "Bs": _enc(S[1]),
+           "Ks": _enc(S[2]), "Ml": _enc(L[0]), "Bl": _enc(L[1]), "Kl": _enc(L[2]), "freq": freq.tolist(), "Fs": _enc(Fs),
            "Ts": _enc(Ts), "Tl": _enc(Tl)}
-    sk = _chk(fails, "ntfl-A-vs-direct-coupling-dense-T-" + tag, "ntfl interface acceleration differs from the coupled solve",
+    sk = _chk(fails, "ntfl-A-vs-direct-coupling-%s-T-%s" % (mode, tag), "ntfl interface acceleration differs from the coupled solve",
               inp, nt.A, A, call, 1)
-    sk += _chk(fails, "ntfl-F-vs-direct-coupling-dense-T-" + tag, "ntfl interface force differs from the coupled solve",
+    sk += _chk(fails, "ntfl-F-vs-direct-coupling-%s-T-%s" % (mode, tag), "ntfl interface force differs from the coupled solve",
                inp, nt.F, F, call, 1)
+    if mode != "dense":
+        # the apparent masses themselves: inverse of the boundary accelerance T H T' (for rows s_i e_i': s_i s_j H_ij)
+        sk += _chk(fails, "calcAM-drm-default-vs-definition-%s-T-%s" % (mode, tag),
+                   "calcAM (source) differs from inv(T Z^-1 T' (-W^2)) for a recovery matrix with rows s_i e_i'",
+                   dict(inp, route="source"), nt.SAM, SAMn, cs, 1)
+        sk += _chk(fails, "calcAM-drm-default-vs-definition-%s-T-%s" % (mode, tag),
+                   "calcAM (load) differs from inv(T Z^-1 T' (-W^2)) for a recovery matrix with rows s_i e_i'",
+                   dict(inp, route="load"), nt.LAM, LAMn, cl, 1)
     return fails, sk
 
 
@@ -802,6 +1538,18 @@ def _hint_checks(ctx, hints, frclim, ode):
         f = _replay_input(inp, frclim, ode)
         if f:
             ctx.failures.append(f)
+
+
+def _rb_damped(B, K):
+    """does the damping matrix act on the rigid-body modes (null space of a symmetric K)?"""
+    B, K = np.asarray(B), np.asarray(K)
+    if np.iscomplexobj(K) or not np.allclose(K, K.T, rtol=1e-9, atol=1e-9 * np.abs(K).max()):
+        return False
+    lam, V = np.linalg.eigh((K + K.T) / 2)
+    null = V[:, np.abs(lam) < 1e-8 * max(np.abs(lam).max(), 1e-300)]
+    if null.shape[1] == 0:
+        return False
+    return bool(np.abs(B @ null).max() > 1e-6 * max(np.abs(B).max(), 1e-300))
 
 
 def _replay_input_raw(inp, frclim, ode):
@@ -827,6 +1575,10 @@ def _replay_input_raw(inp, frclim, ode):
             _chk(fails, fam % "R", "R != diag((SAM+LAM)^-1 SAM)", inp, o.R, R, cnd, 1)
             _chk(fails, fam % "TAM", "TAM != SAM + LAM", inp, o.TAM, SAM + LAM, np.ones(nf), 1)
             return _fdict(fails[0]) if fails else None
+        if kind == "cbtf":
+            from pyyeti import cb as _cb
+
+            return _cbtf_check({k: v for k, v in inp.items() if k != "freq_index"}, _cb)
         if kind == "calcAM-drm":
             c = {k: _dec(inp[k]) for k in ("M", "B", "K", "T")}
             c["freq"] = np.array(inp["freq"])
@@ -835,8 +1587,11 @@ def _replay_input_raw(inp, frclim, ode):
             am = _calc_am(frclim, ode, c)
             fails = []
             r = c["T"].shape[0]
-            _chk(fails, "calcAM-drm-%s-vs-definition-%s" % (c["route"], "multi-dof" if r > 1 else "single-dof"),
-                 "calcAM differs from inv(T Z^-1 T' (-W^2)) computed with numpy", inp, am, ref, cond, 1,
+            fam = "calcAM-drm-%s-vs-definition-%s" % (c["route"], "multi-dof" if r > 1 else "single-dof")
+            if _rb_damped(c["B"], c["K"]):
+                # the input characteristic of F51 / F52: damping that acts on the rigid-body modes (mass-proportional, Rayleigh)
+                fam = "calcAM-drm-%s-damped-rigid-body-modes-%s" % (c["route"], "multi-dof" if r > 1 else "single-dof")
+            _chk(fails, fam, "calcAM differs from inv(T Z^-1 T' (-W^2)) computed with numpy", inp, am, ref, cond, 1,
                  tol=TOL * _eig_grade(inp))
             return _fdict(fails[0]) if fails else None
         if kind == "calcAM-pv":
@@ -889,6 +1644,10 @@ def _replay_input(inp, frclim, ode):
         import traceback
 
         r = len(inp["bset"]) if "bset" in inp else (np.shape(inp.get("T", inp.get("SAM", {"re": [0]}))["re"])[0])
+        if inp.get("kind") == "cbtf":
+            return {"family": "exception-%s-cbtf-%s" % (type(e).__name__, "multi-dof" if r > 1 else "single-dof"),
+                    "what": "cb.cbtf raised %s: %s" % (type(e).__name__, e), "input": inp,
+                    "observed": traceback.format_exc()[-700:], "required": "values"}
         return {"family": "exception-%s-%s-%s" % (type(e).__name__, inp.get("kind"), "multi-dof" if r > 1 else "single-dof"),
                 "what": "%s raised %s: %s" % (inp.get("kind"), type(e).__name__, e), "input": inp,
                 "observed": traceback.format_exc()[-700:], "required": "values"}
@@ -913,11 +1672,11 @@ def search(ctx, hints):
         p = _gen_pair(rng, it)
         try:
             fails, sk = _oracle_pair(p, frclim, ode, cb)
-            if it % 3 == 0:
-                f2, sk2 = _oracle_general_T(p, rng, frclim)
-                fails += f2
-                sk += sk2
-                ctx.count("oracle:dense-T-pairs")
+            mode = ("dense", "signed", "scaled")[it % 3]
+            f2, sk2 = _oracle_general_T(p, rng, frclim, mode)
+            fails += f2
+            sk += sk2
+            ctx.count("oracle:%s-T-pairs" % mode)
         except Exception as e:  # noqa: BLE001
             import traceback
 
@@ -953,6 +1712,9 @@ def search(ctx, hints):
                                                   "sorted" if not np.any(np.diff(bset) < 0) else "unsorted"))
         if f:
             ctx.failures.append(f)
+    _oracle_cbtf(ctx, rng, cb)
+    _oracle_ntfl_relations(ctx, rng, frclim)
+    _oracle_routes(ctx, rng, frclim, ode)
     ctx.extra["oracle_worst_error_over_tolerance"] = {k: float("%.3g" % v) for k, v in sorted(_STATS.items())}
     if skipped:
         ctx.skip("oracle: frequency outside the conditioning domain (cond > 1e5)", skipped)
@@ -963,8 +1725,12 @@ def replay(ctx, data):
     f = data["failure"]
     inp = f["input"]
     kind = inp.get("kind")
-    if kind in ("ntfl-arrays", "calcAM-drm", "calcAM-pv"):
+    if kind in ("ntfl-arrays", "calcAM-drm", "calcAM-pv", "cbtf"):
         return _replay_input(inp, frclim, ode)
+    if kind == "ntfl-relations":
+        fails = _relations_check(inp, frclim)
+        same = [d for d in fails if d["family"] == f["family"]]
+        return (same or fails or [None])[0]
     if kind in ("pair", "pair-dense-T"):
         S = tuple(_dec(inp[k]) for k in ("Ms", "Bs", "Ks"))
         L = tuple(_dec(inp[k]) for k in ("Ml", "Bl", "Kl"))
@@ -981,18 +1747,7 @@ def replay(ctx, data):
             except Exception as e:  # noqa: BLE001
                 return {"family": f["family"], "what": "raised %s: %s" % (type(e).__name__, e), "input": "(as recorded)"}
         else:
-            Ts, Tl = _dec(inp["Ts"]), _dec(inp["Tl"])
-
-            class _Fixed:
-                def __init__(self, mats):
-                    self.mats = list(mats)
-
-                def standard_normal(self, shape):
-                    return self.mats.pop(0)
-
-            ns, nl = S[0].shape[0], L[0].shape[0]
-            fixed = _Fixed([(Ts - np.eye(r, ns)) / 0.3, (Tl - np.eye(r, nl)) / 0.3])
-            fails, _ = _oracle_general_T(p, fixed, frclim)
+            fails, _ = _oracle_general_T(p, None, frclim, inp.get("mode", "dense"), _dec(inp["Ts"]), _dec(inp["Tl"]))
         same = [t for t in fails if t[0] == f["family"]]
         pickf = same or fails
         if pickf:
